@@ -298,6 +298,14 @@ def run(ctx, res):
     for _ in range(12 if quick else 200):
         st, pr = nested_levels(rng)
         cases.append((st, pr, None))
+    # one literal with two descriptions out of one state, among 0-3 sibling literals sorting before/after it: such a grammar is
+    # rejected (Conflicting descriptions); if it were accepted its automaton would have two readings of that literal
+    for k in range(8 if quick else 60):
+        sib = rng.sample(['--help', 'commit', 'Zed', 'aaa', 'zzz', '-x'], k % 4)
+        d1, d2 = rng.choice([('add one', 'add two'), ('add one', None), (None, 'add two')])
+        alts = [('seq', [L('add', d1), L('x')]), ('seq', [L('add', d2), L('y')])] + [L(t) for t in sib]
+        rng.shuffle(alts)
+        cases.append(([('call', 'cmd', ('alt', alts))], mspec.Probes(), None))
     for _ in range(n_dec):
         st, pr = biased(rng)
         cases.append((st, pr, None))
